@@ -99,6 +99,13 @@ pub fn on_dying_thread<F: FnOnce() + Send>(t: u32, f: F) {
     crate::native::on_dying_thread(t, f)
 }
 
+/// The calling concurrent-mode thread `t` exits at this point (last statement of its body): its
+/// thread-local destructors run as part of its own events.
+#[inline(always)]
+pub fn thread_exit_self(t: u32) {
+    unsafe { verif_thread_exit(t) };
+}
+
 /// Simulated thread `t` exits: its thread-local destructors run.
 #[inline(always)]
 pub fn thread_exit(t: u32) {
